@@ -60,6 +60,8 @@ CONFIGS = {
     "bd-nh-22": ("block_diagonalize", (2, 2), (0, 1, 3, 7), False),
     "bd-impl-23": ("block_diagonalize-implicit", (2,), (0, 1, 3, 7, 12), True),
     "bd-arr-22": ("block_diagonalize-arrays", (2, 2), (0, 1, 3, 7), True),
+    # scalar lazily defined Hamiltonian whose terms are nested block lists (unpacked by the library)
+    "bd-nested-21": ("block_diagonalize-nested", (2, 1), (0, 1, 3), True),
 }
 
 
@@ -142,16 +144,20 @@ def build(cfgname, env):
     # block_diagonalize paths: scalar lazily defined Hamiltonian + wrapped default solver
     from scipy import sparse
 
+    def nested(m):
+        return [[m[off[i] : off[i + 1], off[j] : off[j + 1]].copy() for j in range(nb)] for i in range(nb)]
+
     def ev(*index):
         (n,) = index
         env.point(("H", n))
         if n == 0:
             d = np.diag(np.array(E, float))
+            if path.endswith("nested"):
+                return nested(d)
             return sparse.csr_array(d) if "implicit" in path else d
-        if n == 1:
-            return h1.copy()
-        if n == 2:
-            return h2.copy()
+        if n in (1, 2):
+            m = (h1 if n == 1 else h2).copy()
+            return nested(m) if path.endswith("nested") else m
         return zero
 
     Hs = BlockSeries(eval=ev, shape=(), n_infinite=1, name="Hs")
@@ -159,7 +165,7 @@ def build(cfgname, env):
     if "implicit" in path:
         eye = np.eye(N)
         kwargs["subspace_eigenvectors"] = (eye[:, : sizes[0]],)
-    else:
+    elif not path.endswith("nested"):
         kwargs["subspace_indices"] = [b for b, s in enumerate(sizes) for _ in range(s)]
     if path.endswith("-fd"):
         kwargs["fully_diagonalize"] = (0,)
@@ -198,6 +204,7 @@ REQUESTS = {
     "bd-nh-22": [("H_tilde", (1, 1, 3)), ("U†", (0, 1, 3))],
     "bd-impl-23": [("H_tilde", (0, 0, 3)), ("U", (0, 1, 3)), ("H_tilde", (1, 1, 2))],
     "bd-arr-22": [("H_tilde", (0, 0, 3)), ("U", (0, 1, 3))],
+    "bd-nested-21": [("H_tilde", (0, 0, 3)), ("U", (0, 1, 3))],
 }
 
 
